@@ -7,7 +7,7 @@ from harness.props import graph_common as gc
 ID = 'C11'
 PROPS_FILE = 'Props/Props_C11.v'
 EXTRA_TARGETS = ['Graph/Check.vo']
-CONST_PARTS = ()
+CONST_PARTS = ('srcgraph',)
 
 SPEC = gc.Spec(
     ID, 11,
